@@ -35,6 +35,25 @@ class LakeLock:
         self.f.close()
 
 
+class PropLock:
+    """Serialise whole runs of ONE property's check (two concurrent runs of the same property would rewrite
+    Generated/<id>.lean and rebuild its .olean under each other's drivers → spurious infrastructure errors).
+    Runs of different properties stay parallel."""
+
+    def __init__(self, prop):
+        self.prop = prop
+
+    def __enter__(self):
+        os.makedirs(os.path.join(VERIF, ".cache"), exist_ok=True)
+        self.f = open(os.path.join(VERIF, ".cache", "prop-%s.lock" % self.prop), "w")
+        fcntl.flock(self.f, fcntl.LOCK_EX)
+        return self
+
+    def __exit__(self, *a):
+        fcntl.flock(self.f, fcntl.LOCK_UN)
+        self.f.close()
+
+
 def lake_build(targets, timeout=1500):
     """Return (ok, log). Caller should hold LakeLock."""
     if isinstance(targets, str):
